@@ -14,11 +14,13 @@ class Prop:
             'appstate_t2: all lists of displayed states of length <= 3 (plain and forced), every case counted. '
             'appstatus_vectors: non-trivial when the application is not STOPPED or reports a failure; distinct by '
             'the multiset of (displayed state, expected_exit, required), managed flag and start-sequence content. '
-            'appstatus_formulas (3/7 well-formed, 2/7 ill-formed, 2/7 hostile + fixed witnesses): non-trivial when '
+            'appstatus_formulas (3/7 well-formed, 2/7 ill-formed, 2/7 hostile; the corpus harness/corpus/c15_formulas.json '
+            '= former witnesses of the fixed F14 classes runs first): non-trivial when '
             'the setter stored the formula (evaluate() is reached); distinct by formula string and process states')
     ASSUMPTIONS = ['ast.parse and re (compile + match) are oracles: their results are inputs of the model',
                    'formula nesting depth <= 64 in generated cases: Python recursion limit is not modelled '
-                   '(deeper formulas raise RecursionError out of update(), reported as candidate finding)',
+                   '(a formula nested about 1000 levels deep still raises RecursionError out of update(); theorems carry '
+                   'H_depth = depth_ok),',
                    'process.expected_exit is a bool (checked by the driver on every case)',
                    'the spec judges only cases whose start sequence is up to date (context.py calls '
                    'update_sequences after every change of the process map)']
